@@ -4,6 +4,7 @@ package c07rt
 
 import (
 	"bytes"
+	"context"
 	"errors"
 	"fmt"
 	"sync"
@@ -25,7 +26,34 @@ type c07Factory struct {
 
 	mu     sync.Mutex
 	stores map[string]chstore.ChannelStore
+	ctxs   map[string]context.Context
 	churn  int
+	// lastNotWritten: the last AppendLeader failed with the closed outcome
+	// DefinitelyNotWritten (the log must then be unchanged).
+	lastNotWritten bool
+}
+
+// SetCtx makes every following call on ch use ctx (nil = live background context).
+func (f *c07Factory) SetCtx(ch *c07Chan, ctx context.Context) {
+	f.mu.Lock()
+	defer f.mu.Unlock()
+	if f.ctxs == nil {
+		f.ctxs = map[string]context.Context{}
+	}
+	if ctx == nil {
+		delete(f.ctxs, ch.Key)
+	} else {
+		f.ctxs[ch.Key] = ctx
+	}
+}
+
+func (f *c07Factory) cx(ch *c07Chan) context.Context {
+	f.mu.Lock()
+	defer f.mu.Unlock()
+	if ctx := f.ctxs[ch.Key]; ctx != nil {
+		return ctx
+	}
+	return c07Ctx
 }
 
 func c07NewFactory(dir string, memory bool) *c07Factory {
@@ -85,6 +113,8 @@ func (f *c07Factory) ClassOf(err error) string {
 	switch {
 	case err == nil:
 		return "ok"
+	case errors.Is(err, context.Canceled):
+		return "cancelled"
 	case f.memory:
 		return "err"
 	case errors.Is(err, chn.ErrLogConflict):
@@ -182,11 +212,13 @@ func (f *c07Factory) records(recs []c07Rec, firstIndex uint64) []chn.Record {
 }
 
 func (f *c07Factory) Append(ch *c07Chan, mode c07Mode, baseSeq uint64, recs []c07Rec) (uint64, uint64, error) {
-	res, err := f.st(ch).AppendLeader(c07Ctx, chstore.AppendLeaderRequest{Records: f.records(recs, 0), ServerAllocatedMessageIDs: mode == c07ServerAlloc})
+	res, err := f.st(ch).AppendLeader(f.cx(ch), chstore.AppendLeaderRequest{Records: f.records(recs, 0), ServerAllocatedMessageIDs: mode == c07ServerAlloc})
+	f.lastNotWritten = false
 	if err != nil {
 		if res.Outcome.Durable() {
 			return 0, 0, fmt.Errorf("error %v with durable outcome", err)
 		}
+		f.lastNotWritten = res.Outcome == chstore.AppendOutcomeDefinitelyNotWritten
 		return 0, 0, err
 	}
 	if !res.Outcome.Durable() {
@@ -199,19 +231,19 @@ func (f *c07Factory) Append(ch *c07Chan, mode c07Mode, baseSeq uint64, recs []c0
 }
 
 func (f *c07Factory) Apply(ch *c07Chan, baseSeq uint64, recs []c07Rec, ck *c07Ckpt, strict bool) (uint64, error) {
-	res, err := f.st(ch).ApplyFollower(c07Ctx, chstore.ApplyFollowerRequest{Records: f.records(recs, baseSeq)})
+	res, err := f.st(ch).ApplyFollower(f.cx(ch), chstore.ApplyFollowerRequest{Records: f.records(recs, baseSeq)})
 	return res.LEO, err
 }
 
 func (f *c07Factory) Truncate(ch *c07Chan, to uint64) error { return errors.New("unsupported") }
 
 func (f *c07Factory) Adopt(ch *c07Chan, through uint64) error {
-	_, err := f.st(ch).AdoptRetentionBoundary(c07Ctx, through, "c07")
+	_, err := f.st(ch).AdoptRetentionBoundary(f.cx(ch), through, "c07")
 	return err
 }
 
 func (f *c07Factory) Trim(ch *c07Chan, through uint64, maxMsgs, maxBytes int) (c07TrimRes, error) {
-	res, err := f.st(ch).TrimMessagesThrough(c07Ctx, through, chstore.RetentionTrimOptions{MaxMessages: maxMsgs, MaxBytes: maxBytes})
+	res, err := f.st(ch).TrimMessagesThrough(f.cx(ch), through, chstore.RetentionTrimOptions{MaxMessages: maxMsgs, MaxBytes: maxBytes})
 	return c07TrimRes{res.DeletedThroughSeq, res.Deleted, res.More}, err
 }
 
@@ -220,7 +252,7 @@ func (f *c07Factory) StoreCkpt(ch *c07Chan, ck c07Ckpt, mono bool, visibleHW, le
 }
 
 func (f *c07Factory) LEO(ch *c07Chan) (uint64, error) {
-	st, err := f.st(ch).Load(c07Ctx)
+	st, err := f.st(ch).Load(f.cx(ch))
 	return st.LEO, err
 }
 
@@ -234,7 +266,7 @@ func c07FromChannelMsg(m chn.Message) c07Rec {
 }
 
 func (f *c07Factory) Scan(ch *c07Chan, from uint64, limit, maxBytes int, reverse bool) ([]c07Rec, error) {
-	res, err := f.st(ch).ReadCommitted(c07Ctx, chstore.ReadCommittedRequest{FromSeq: from, Limit: limit, MaxBytes: maxBytes, Reverse: reverse})
+	res, err := f.st(ch).ReadCommitted(f.cx(ch), chstore.ReadCommittedRequest{FromSeq: from, Limit: limit, MaxBytes: maxBytes, Reverse: reverse})
 	out := make([]c07Rec, len(res.Messages))
 	for i, m := range res.Messages {
 		out[i] = c07FromChannelMsg(m)
@@ -243,7 +275,7 @@ func (f *c07Factory) Scan(ch *c07Chan, from uint64, limit, maxBytes int, reverse
 }
 
 func (f *c07Factory) GetBySeq(ch *c07Chan, seq uint64) (c07Rec, bool, error) {
-	res, err := f.st(ch).ReadCommitted(c07Ctx, chstore.ReadCommittedRequest{FromSeq: seq, MaxSeq: seq, Limit: 1, MaxBytes: 1 << 30})
+	res, err := f.st(ch).ReadCommitted(f.cx(ch), chstore.ReadCommittedRequest{FromSeq: seq, MaxSeq: seq, Limit: 1, MaxBytes: 1 << 30})
 	if err != nil || len(res.Messages) == 0 {
 		return c07Rec{}, false, err
 	}
@@ -255,7 +287,7 @@ func (f *c07Factory) GetByID(ch *c07Chan, id uint64) (c07Rec, bool, error) {
 	if !ok {
 		return c07Rec{}, false, errors.New("no MessageLookup")
 	}
-	m, found, err := l.LookupMessageByID(c07Ctx, id)
+	m, found, err := l.LookupMessageByID(f.cx(ch), id)
 	return c07FromChannelMsg(m), found, err
 }
 
@@ -268,7 +300,7 @@ func (f *c07Factory) LookupPair(ch *c07Chan, p c07Pair) (c07Hit, bool, error) {
 	if !ok {
 		return c07Hit{}, false, errors.New("no IdempotencyLookup")
 	}
-	hit, found, err := l.LookupIdempotency(c07Ctx, p.UID, p.No)
+	hit, found, err := l.LookupIdempotency(f.cx(ch), p.UID, p.No)
 	return c07Hit{hit.Message.MessageSeq, hit.Message.MessageID, hit.PayloadHash}, found, err
 }
 
@@ -277,11 +309,11 @@ func (f *c07Factory) LastSender(ch *c07Chan, uid string, through uint64) (uint64
 	if !ok {
 		return 0, false, errors.New("no SenderSequenceLookup")
 	}
-	return l.GetLastSenderMessageSeq(c07Ctx, uid, through)
+	return l.GetLastSenderMessageSeq(f.cx(ch), uid, through)
 }
 
 func (f *c07Factory) Retention(ch *c07Chan) (c07Ret, error) {
-	st, err := f.st(ch).LoadRetentionState(c07Ctx)
+	st, err := f.st(ch).LoadRetentionState(f.cx(ch))
 	ret := c07Ret{false, st.LocalRetentionThroughSeq, st.PhysicalRetentionThroughSeq, st.RetainedMaxSeq}
 	ret.Present = ret != c07Ret{}
 	return ret, err
@@ -292,7 +324,7 @@ func (f *c07Factory) Checkpoint(ch *c07Chan) (c07Ckpt, error) { return c07Ckpt{}
 // ExtraAudit compares the raw replication read with the model.
 func (f *c07Factory) ExtraAudit(ch *c07Chan) (string, any) {
 	want := ch.expectScan(0, 0, 0, false)
-	res, err := f.st(ch).ReadLog(c07Ctx, chstore.ReadLogRequest{FromOffset: 1, MaxBytes: 1 << 30})
+	res, err := f.st(ch).ReadLog(f.cx(ch), chstore.ReadLogRequest{FromOffset: 1, MaxBytes: 1 << 30})
 	if err != nil {
 		return "read-log:error", err.Error()
 	}
@@ -308,7 +340,7 @@ func (f *c07Factory) ExtraAudit(ch *c07Chan) (string, any) {
 	}
 	if len(want) > 1 {
 		mid := want[len(want)/2].Seq
-		res, err := f.st(ch).ReadLog(c07Ctx, chstore.ReadLogRequest{FromOffset: mid, MaxOffset: mid + 1, MaxBytes: 1 << 30})
+		res, err := f.st(ch).ReadLog(f.cx(ch), chstore.ReadLogRequest{FromOffset: mid, MaxOffset: mid + 1, MaxBytes: 1 << 30})
 		if err != nil {
 			return "read-log:error", err.Error()
 		}
